@@ -18,14 +18,14 @@ def run(ctx):
     # 2. the real write sequences, every prefix re-opened by the real code
     drv = ctx.build("c03")
     procs = 4
-    per = 2 if quick else 10
+    per = 6 if quick else 40
     blocks = 5 if quick else 6
     argvs, traces = [], []
     for k in range(procs):
         tp = os.path.join(ctx.scratch, "trace%d.ndjson" % k)
         traces.append(tp)
         argv = [drv, "--out", tp, "--scratch", os.path.join(ctx.scratch, "node%d" % k), "--histories", str(per),
-                "--blocks", str(blocks), "--mutations", str(2500 if k % 2 == 0 else 1500), "--accounts", str(300 if k < 2 else 120),
+                "--blocks", str(blocks), "--mutations", str((2500 if k % 2 == 0 else 1500) if quick else (5000 if k % 2 == 0 else 2000)), "--accounts", str(300 if k < 2 else 120),
                 "--keys", str(14 if k < 2 else 30), "--salt", str(k)]
         if os.environ.get("VERIF_C03_CORRUPT"):
             argv += ["--corrupt", os.environ["VERIF_C03_CORRUPT"]]
@@ -65,19 +65,22 @@ def run(ctx):
                         samples.append(e)
                 elif e["event"] == "Committed" and len(samples) < 4:
                     samples.append(e)
+    vacuous = []
     if max_batches < 3:
-        raise Inconclusive("no commit was split over at least 3 batch writes")
+        vacuous.append("no commit was split over at least 3 batch writes")
     if older_while_newer_absent == 0 or present == 0 or rewritten == 0:
-        raise Inconclusive("vacuous: no prefix with an older root on disk during a later commit / no root re-opened / no shared node")
+        vacuous.append("no prefix with an older root on disk during a later commit / no root re-opened / no shared node")
     for k in ("SetData", "AddBalance", "SetNonce", "SetCode", "CloneStorage", "Suicide", "CreateAccount"):
         if not kinds.get(k):
-            raise Inconclusive("mutation kind %s never generated" % k)
+            vacuous.append("mutation kind %s never generated" % k)
     # 3. judge the write sequences against the specification, at every prefix
     results = validate_parallel(ctx, "TrieCommitTrace", traces, timeout=1500 if quick else 6000)
     total = 0
     for tp, (n, bad) in zip(traces, results):
         total += n
         add_violations_from_bad(ctx, bad, tp)
+    if vacuous and not ctx.violations:
+        raise Inconclusive("vacuous: " + "; ".join(vacuous))
     coverage = {
         "evaluations": tot["reopens"],
         "distinct_nontrivial": present,
